@@ -6,12 +6,26 @@ every JSON context, and the umbrella theorem `alt_equiv`: related trees are read
 namespace TLVerif.Codec
 open TLVerif.Prim
 
-
 def PrimK.isNumeric : PrimK → Bool
   | .u32 | .i32 | .u64 | .i64 | .f32 | .f64 | .byte => true
   | _ => false
 
 def asciiBytes (t : List Char) : Bytes := t.map (fun c => byteOf c.toNat)
+
+/-- `ej` is the JSON the writer omits for type `ty`: reading it gives the zero value (what an absent member is reset to) -/
+def EmptyOf (d : Desc) (ty : Nat) (ej : Json) : Prop :=
+  ∀ (lg : Bool) (pk : Bytes → Option Json) (fuel : Nat), readJson d lg pk fuel ty [] (some ej) = zeroVal d fuel ty
+
+/-- the explicit empty value of every primitive is `EmptyOf` it: `0`, `""`, `false` -/
+theorem emptyOf_prim (d : Desc) (ty : Nat) (k : PrimK) (hd : d.get? ty = some (.prim k)) (hk : k ≠ .bit) : EmptyOf d ty (emptyPrimJ k) := by
+  intro lg pk fuel
+  cases fuel with
+  | zero => rfl
+  | succ fuel =>
+    conv => lhs; unfold readJson
+    conv => rhs; unfold zeroVal
+    simp only [hd]
+    cases k <;> first | rfl | exact absurd rfl hk
 
 /-- The documented alternative spellings, as a type-directed relation on JSON trees (inductive closure: reflexive, symmetric,
 transitive, and closed under every JSON context: typedef wrappers, array elements, struct members, union and Maybe values). -/
@@ -34,6 +48,12 @@ inductive AltForm (d : Desc) : Nat → Json → Json → Prop
       AltForm d ty (.obj [(kValue, v), (kOk, .bool true)]) (.obj [(kOk, .bool true), (kValue, v)])
   | maybeOkFalse (ty : Nat) (u : UnionD) : d.get? ty = some (.union u) → u.isMaybe = true →
       AltForm d ty (.obj [(kOk, .bool false)]) (.obj [])
+  /-- omitted fields as empty values: an absent plain field (unmasked, no nat arguments, not true-typed) may be given explicitly
+  with the empty value of its type -/
+  | omittedEmpty (ty : Nat) (s : StructD) (kvs : List (Bytes × Json)) (k : Bytes) (ej : Json) : d.get? ty = some (.struct s) →
+      (s.isTypedef || s.isUnwrap) = false → countKey k kvs = 0 → (findField s k s.fields 0).isSome = true →
+      (∀ f ∈ s.fields, strBytes f.name = k → fieldOmitted s f = false → f.plain ∧ EmptyOf d f.ty ej) →
+      AltForm d ty (.obj kvs) (.obj (kvs ++ [(k, ej)]))
   /-- contexts -/
   | typedef (ty : Nat) (s : StructD) (f : Field) (j j' : Json) : d.get? ty = some (.struct s) →
       (s.isTypedef || s.isUnwrap) = true → s.fields = [f] → AltForm d f.ty j j' → AltForm d ty j j'
@@ -122,6 +142,14 @@ theorem alt_equiv (d : Desc) (lg : Bool) (pk : Bytes → Option Json) {ty : Nat}
     cases fuel with
     | zero => rfl
     | succ fuel => exact readJson_maybe_congr d lg pk fuel ty params u hd hm _ _ rfl
+  | omittedEmpty ty s kvs k ej hd ht hc hfield H =>
+    intro fuel params
+    cases fuel with
+    | zero => rfl
+    | succ fuel =>
+      rw [readJson_struct_obj d lg pk fuel ty params s hd ht, readJson_struct_obj d lg pk fuel ty params s hd ht]
+      exact readStructJ_omitted_empty d fuel _ s params kvs k ej hc hfield
+        (fun f hf hk ho => ⟨(H f hf hk ho).1, (H f hf hk ho).2 lg pk fuel⟩)
   | typedef ty s f j j' hd ht hf _ ih =>
     intro fuel params
     cases fuel with
@@ -219,5 +247,6 @@ theorem alt_equiv (d : Desc) (lg : Bool) (pk : Bytes → Option Json) {ty : Nat}
                 | union _ => rfl
                 | array _ => rfl
                 | dict _ => rfl
+
 
 end TLVerif.Codec
